@@ -107,6 +107,7 @@ def run_pass(world, pspec, vector):
 
     pool: list = []
     pool_snaps: list = []
+    rid: set = set()
     want_cells = bool(pspec.get("cells"))
     cells: set = set()
 
@@ -256,6 +257,7 @@ def run_pass(world, pspec, vector):
             sched.atomic[k] += 1
             site = f"T:{k}:{i}:{op['f']}"
             before_g = gexp
+            regb = vector._awkward_registered
             ctx = faults.OpCtx(plan.get((k, i)))
             faults.set_ctx(ctx)
             sched.atomic[k] -= 1
@@ -280,10 +282,16 @@ def run_pass(world, pspec, vector):
                 if not getattr(val.exc, "vecsim_injected", False):
                     n = type(val.exc).__name__
                     stats["natural_exc"][n] = stats["natural_exc"].get(n, 0) + 1
+                tb = val.exc.__traceback__
+                while tb is not None:
+                    co = tb.tb_frame.f_code
+                    if co.co_name == "dispatch" and "_compute" in co.co_filename:
+                        rid.add(co.co_filename.split("_compute")[-1].strip("/"))
+                    tb = tb.tb_next
             for fk in ctx.fired:
                 stats["faults_fired"][fk[0]] += 1
             results[k][i] = val
-            oc = _outcome(val)
+            oc = _outcome(val) + (regb, vector._awkward_registered, _akdep(op, env, val))
             outcomes[f"T:{k}:{i}"] = oc
             if want_cells:
                 cells.add(_cell(op, env, val))
@@ -376,6 +384,7 @@ def run_pass(world, pspec, vector):
         "lib_calls": faults.counters.lib_calls,
         "flt_calls": faults.counters.flt_calls,
     }
+    out["raised_in_dispatch"] = sorted(rid)
     if want_cells:
         out["cells"] = sorted(cells)
     if pspec.get("want_list"):
@@ -411,6 +420,24 @@ def _cell(op, env, val):
                 parts.append("?")
     parts.append("exc:" + type(val.exc).__name__ if isinstance(val, _Raised) else "ok:" + type(val).__name__)
     return "|".join(parts)
+
+
+def _akdep(op, env, val):
+    """Does the op involve Awkward values (whose class resolution may go through the global registry)?"""
+    import awkward as ak
+
+    if op["f"].startswith(("vector.Array", "vector.zip", "vector.awk", "awkward.")):
+        return True
+    if isinstance(val, (ak.Array, ak.Record)):
+        return True
+    for t, v in ops.op_refs(op):
+        try:
+            x = ops.decode({"$": t, "v": v}, env)
+        except Exception:
+            return True  # depends on something that failed: may itself be registration-dependent
+        if isinstance(x, (ak.Array, ak.Record)):
+            return True
+    return False
 
 
 def _tdiff(a, b):
